@@ -159,6 +159,8 @@ func checkC09(c *Ctx) (string, []string) {
 	}
 	c.extra["dictionary_mutations"] = nmut
 
+	c09MigrationBeforeRead(c)
+
 	c.Rule("C09.full-before-mutation", "no state mutation precedes a FULL result on any path (host calls and their register-setting helpers)", 3)
 	e.ruleNoMutationBeforeErrorF("C09.full-before-mutation", map[string]string{}, func(x string) bool { return x == "FULL" })
 
